@@ -5,10 +5,15 @@
    positions; any index at or beyond the length is refused whatever else the list holds; the index list delete
    works with is strictly descending with the same members (C13_prepare); trimming removes leading and trailing
    zeros only and is restricted to rank 1; flat append chains the element lists (C11_append_flat).
+   INSERT (flat form): C13_insert_core — inserting the stably sorted requests from the back yields, for every original
+   position in order, the values requested for that position in request order followed by the original element, and
+   the values requested for the end position last (insert_spec), for any number of requests, repeated and unsorted
+   positions included; C13_insert_flat lifts it to the array operation (the request list being what broadcasting the
+   position list against the flattened values yields; that broadcast itself is C03).
    NOT YET PROVED (exhaustively checked by the correspondence run incl. insert-then-delete round trips executed on
-   the implementation): the placement statement for insert and the per-index repeat statement along an axis. *)
+   the implementation): insert along an axis and the per-index repeat statement. *)
 From Coq Require Import Sorted.
-From ArrRs Require Import Index Axis Axis_proofs Broadcast_proofs Reduce Along_proofs Edit Edit_proofs Delete_proofs.
+From ArrRs Require Import Index Axis Axis_proofs Broadcast_proofs Reduce Along_proofs Edit Edit_proofs Delete_proofs Broadcast Insert_proofs.
 
 Theorem C13_trim : forall (A : Type) (p : A -> bool) l,
   let t := drop_while p (rev (drop_while p (rev l))) in
@@ -59,6 +64,36 @@ Theorem C13_delete_axis : forall (T : Type) (d : T) (a : arr T) idx ax,
     forall c, in_range (shape R) c ->
       get d R c = nth (nth ax c 0) (keep (elems (lane d a ax (remove_nth c ax))) idx) d.
 Proof. exact @delete_axis_spec. Qed.
+
+(* insert *)
+Theorem C13_insert_spec_def : forall (T : Type) (d : T) (l : list T) pairs,
+  insert_spec d l pairs =
+  flat_map (fun i => map snd (filter (fun p => fst p =? i) pairs) ++ (if i <? length l then [nth i l d] else []))
+           (seq 0 (S (length l))).
+Proof. reflexivity. Qed.
+
+Theorem C13_insert_core : forall (T : Type) (d : T) (pairs : list (nat * T)) (l : list T),
+  Forall (fun p => fst p <= length l) pairs ->
+  insert_back l (sort_pairs pairs) = Ok (insert_spec d l pairs).
+Proof.
+  intros T d pairs l F. destruct (sort_pairs_spec pairs) as (S & G & M).
+  rewrite (insert_back_spec d (sort_pairs pairs) l S).
+  - f_equal. unfold insert_spec. apply flat_map_ext_in'. intros i _. f_equal. apply (G i).
+  - apply Forall_forall. intros p Hp. apply M in Hp. rewrite Forall_forall in F. exact (F p Hp).
+Qed.
+
+Theorem C13_insert_flat : forall (T : Type) (d : T) (a values : arr T) idx pr,
+  existsb (fun i => len a <? i) idx = false -> 1 <= ndim a -> ndim values = 1 ->
+  broadcast_h2 0 d (mk idx [length idx]) (mk (elems values) [len values]) = Ok pr ->
+  let P := combine (elems (fst pr)) (elems (snd pr)) in
+  Forall (fun p => fst p <= len a) P ->
+  insert_flat d a idx values = Ok (mk (insert_spec d (elems a) P) [length (insert_spec d (elems a) P)]).
+Proof. exact @insert_flat_spec. Qed.
+
+Example C13_insert_nonvacuous :
+  insert_spec 0%Z [0;1;2;3]%Z [(1,10%Z); (4,12%Z); (1,11%Z)] = [0;10;11;1;2;3;12]%Z /\
+  insert_back [0;1;2;3]%Z (sort_pairs [(1,10%Z); (4,12%Z); (1,11%Z)]) = Ok [0;10;11;1;2;3;12]%Z.
+Proof. split; vm_compute; reflexivity. Qed.
 
 Example C13_nonvacuous :
   delete 0%Z (mk [0;1;2;3;4;5]%Z [6]) [4;1;4] None = Ok (mk [0;2;3;5]%Z [4]) /\
